@@ -194,8 +194,8 @@ class World:
 
         def send(obj):
             cid = None
-            if isinstance(obj, call.CallSlicer) and obj.methodname == "m" and obj.kwargs.get("cid") in side.meta:
-                cid = obj.kwargs["cid"]
+            if isinstance(obj, call.CallSlicer) and obj.methodname == "m" and cid_of_args(obj.args, obj.kwargs) in side.meta:
+                cid = cid_of_args(obj.args, obj.kwargs)
                 kind, fate, stalls = side.meta[cid]
                 obj.c04_kind = kind
                 side.sent.append(cid)
@@ -233,7 +233,7 @@ class World:
 
     def _cid_of(self, delivery):
         if delivery.methodname == "m" and isinstance(delivery.obj, Target):
-            return delivery.allargs.kwargs.get("cid")
+            return cid_of_args(delivery.allargs.args, delivery.allargs.kwargs)
         return None
 
     def entered_call(self, d, cid):
@@ -285,10 +285,16 @@ class World:
             useschema = True
         if spec.get("reenter"):
             self.reenter[(d, cid)] = list(spec["reenter"])
+        args = ()
+        if spec.get("pos") and "x" in kw:
+            # the same call with positional arguments (m(cid, a, x, g)); the last one may stay a keyword
+            args = (kw.pop("cid"), kw.pop("a"), kw.pop("x"))
+            if spec["pos"] == "all":
+                args += (kw.pop("g"),)
         if spec.get("only"):
-            self.rrefs[d].callRemoteOnly("m", _useSchema=useschema, **kw)
+            self.rrefs[d].callRemoteOnly("m", *args, _useSchema=useschema, **kw)
         else:
-            dd = self.rrefs[d].callRemote("m", _useSchema=useschema, **kw)
+            dd = self.rrefs[d].callRemote("m", *args, _useSchema=useschema, **kw)
             dd.addBoth(lambda r, cid=cid, d=d, kind=kind: self.results[d].setdefault((cid, kind), short(r)))
 
     def noise(self, what):
@@ -385,11 +391,11 @@ class World:
         S, R, side = self.brokers[d], self.brokers[1 - d], self.sides[d]
 
         def tracked(o):
-            return isinstance(o, call.CallSlicer) and o.methodname == "m" and o.kwargs.get("cid") in side.meta
-        sendq = [o.kwargs["cid"] for (o, _) in S.rootSlicer.sendQueue if tracked(o)]
+            return isinstance(o, call.CallSlicer) and o.methodname == "m" and cid_of_args(o.args, o.kwargs) in side.meta
+        sendq = [cid_of_args(o.args, o.kwargs) for (o, _) in S.rootSlicer.sendQueue if tracked(o)]
         cur = None
         if len(S.slicerStack) > 1 and tracked(S.slicerStack[1][0]):
-            cur = S.slicerStack[1][0].kwargs["cid"]
+            cur = cid_of_args(S.slicerStack[1][0].args, S.slicerStack[1][0].kwargs)
         wire = side.order[side.delivered:]
         inq = [c for c in (self._cid_of(dl) for (dl, _) in R.inboundDeliveryQueue) if c is not None]
         waiting = bool(R._waiting_for_call_to_be_ready)
@@ -437,6 +443,12 @@ def settle_gc():
     with E.quiet():
         gc.collect(1)      # the young generations hold everything the last scenarios created (automatic GC is off)
         E.reset_clock()
+
+
+def cid_of_args(args, kwargs):
+    if "cid" in kwargs:
+        return kwargs["cid"]
+    return args[0] if args and isinstance(args[0], int) else None
 
 
 def turn_pending():
@@ -712,3 +724,153 @@ def measure_disciplines(n):
         out["inq_second"] = [d.i for d, _ in b.inboundDeliveryQueue]
         E.reset_clock()
     return out
+
+
+# ---------------------------------------------------------------------------------------------------------------
+# connections that START with a real negotiation.  Two real Tubs on the in-memory network; the side that sends the
+# decision block (the master) starts calling the moment its Broker is attached, so its first calls follow the decision
+# block on the wire without a gap.  The harness then cuts that byte stream wherever it likes and hands several pieces to
+# the receiving side back to back, i.e. before foolscap's eventual queue runs (two TLS records in one TCP segment).
+
+START_CLID = 7777      # far away from the ids the Broker hands out itself (count(1))
+
+
+def _broker_class_for(target):
+    """a Broker that already exports `target` as clid 1 (so that the peer can call it at once); handed to the Tub
+    through its public class attribute `brokerClass`"""
+    class StartBroker(broker.Broker):
+        def initBroker(self):
+            broker.Broker.initBroker(self)
+            t = referenceable.ReferenceableTracker(None, target, id(target), START_CLID)
+            t.send()
+            self.myReferenceByPUID[id(target)] = t
+            self.myReferenceByCLID[START_CLID] = t
+    return StartBroker
+
+
+class StartTarget(Referenceable):
+    def __init__(self):
+        self.entered = []
+
+    def remote_m(self, cid, pad=None):
+        self.entered.append(cid)
+        return cid
+
+
+def run_negotiated(master_is_client, n_first, n_later, cuts, burst, seed, pad=0, slave_calls=0):
+    """-> dict(entered (on the non-master side), results, lost, stream_len, decision_len, ...).
+    cuts: offsets into the master's byte stream [decision block + first calls] at which it is cut into packets;
+    burst: how many of those packets are handed over back to back before the eventual queue gets a turn"""
+    import random as _random
+    rng = _random.Random(seed)
+    with E.quiet():
+        E.reset_clock()
+        net = E.Net()
+        pems = E.pems_sorted(2)
+        tm, ts = StartTarget(), StartTarget()        # tm lives on the master, ts on the other side
+        M = E.make_tub(net, "m", pems[1][1])      # higher tubID: sends the decision
+        S = E.make_tub(net, "s", pems[0][1])
+        M.brokerClass = _broker_class_for(tm)
+        S.brokerClass = _broker_class_for(ts)
+        results = {}
+        state = dict(attached=False, n=0, rref=None, slave_n=0)
+
+        def issue_from_master(k):
+            for _ in range(k):
+                cid = state["n"]
+                state["n"] += 1
+                kw = dict(cid=cid)
+                if pad:
+                    kw["pad"] = "x" * pad
+                if cid % 3 == 2:
+                    state["rref"].callRemoteOnly("m", **kw)
+                else:
+                    state["rref"].callRemote("m", **kw).addBoth(lambda r, cid=cid: results.setdefault(cid, short(r)))
+
+        real_attached = M.brokerAttached
+
+        def attached(tubref, b, isClient):
+            real_attached(tubref, b, isClient)
+            if not state["attached"]:
+                state["attached"] = True
+                state["rref"] = b.getTrackerForYourReference(START_CLID, None).getRef()
+                issue_from_master(n_first)
+        M.brokerAttached = attached
+        real_attached_s = S.brokerAttached
+        sres = {}
+
+        def attached_s(tubref, b, isClient):
+            real_attached_s(tubref, b, isClient)
+            rr = b.getTrackerForYourReference(START_CLID, None).getRef()
+            for i in range(slave_calls):
+                rr.callRemote("m", cid=i).addBoth(lambda r, i=i: sres.setdefault(i, short(r)))
+        S.brokerAttached = attached_s
+        anchor = Referenceable()
+        got = []
+        if master_is_client:
+            M.getReference(S.registerReference(anchor)).addBoth(got.append)
+        else:
+            S.getReference(M.registerReference(anchor)).addBoth(got.append)
+        E.turn()
+        # ordinary delivery until the master has decided
+        for _ in range(10000):
+            if state["attached"]:
+                break
+            c = net.deliverable()
+            if not c:
+                break
+            net.step(rng.choice(c))
+        out = dict(master_attached=state["attached"])
+        if not state["attached"]:
+            return out
+        # the master's stream: decision block followed by its first calls
+        where = None
+        for l in net.links:
+            for side in (0, 1):
+                data = [x for x in l.q[side] if x is not None]
+                if any(b"banana-decision-version" in x for x in data):
+                    where = (l, side)
+        if where is None:
+            out["no_decision_found"] = True
+            return out
+        l, side = where
+        pending = l.q[side]
+        k = 0
+        while k < len(pending) and pending[k] is not None:
+            k += 1
+        stream = b"".join(pending[:k])
+        del pending[:k]
+        dec_at = stream.index(b"banana-decision-version")
+        dec_end = stream.index(b"\r\n\r\n", dec_at) + 4
+        out["stream_len"], out["decision_len"] = len(stream), dec_end
+        offs = sorted(set(o for o in cuts if 0 < o < len(stream)))
+        pieces = [stream[a:b] for a, b in zip([0] + offs, offs + [len(stream)])]
+        dst = l.ends[1 - side]
+        i = 0
+        while i < len(pieces):
+            for p in pieces[i:i + burst]:
+                if not dst.closed and not dst.lost:
+                    dst.protocol.dataReceived(p)       # back to back: no eventual turn in between
+            i += burst
+            one_turn() if rng.random() < 0.5 else E.turn()
+        E.turn()
+        net.run(rng, chunk=(lambda r: r.choice((1, 3, 7, 50, 1000))))
+        if n_later and state["rref"] is not None:
+            issue_from_master(n_later)
+            E.turn()
+            net.run(rng, chunk=(lambda r: r.choice((1, 3, 7, 50, 1000))))
+        out.update(entered=list(ts.entered), results=results, issued=state["n"], slave_entered=list(tm.entered),
+                   slave_results=sres, lost=[e.lost or e.closed for e in l.ends], got=[short(x) if isinstance(x, failure.Failure) else "ref" for x in got])
+        for t in (M, S):
+            try:
+                t.stopService()
+            except Exception:
+                pass
+        E.turn()
+        try:
+            net.run(rng, maxsteps=5000)
+        except RuntimeError:
+            pass
+        del M, S, net
+        settle_gc()
+        return out
